@@ -9,7 +9,8 @@ package main
 // vfs.Point immediately before every filesystem step (MkdirAll, TempFile, every data write,
 // Close, Chtimes, Rename, the Remove of every error path, and the open/flock/utimes/stat/read steps
 // of Compare/Touch on an existing copy).  For every scenario
-//     block size x previous copy {absent, intact, truncated, bit-flipped, trashed} x volume layout
+//     block size x previous copy {absent, intact, truncated, bit-flipped, extended by 1 byte / 32 KiB,
+//     trashed} x volume layout
 //     {one writable; two writable with the copy on the first / the second; read-only volume holding
 //     the copy + a writable one} x Serialize {off, on}
 // a child process (this test binary re-executing itself) performs ONE PUT through the real router
@@ -71,7 +72,7 @@ const c02Token = "c02systemroottokenc02systemroottokenc02systemroottoken"
 
 type c02Scn struct {
 	Size      int    `json:"size"`
-	Prev      string `json:"prev"`   // absent intact trunc flip trashed
+	Prev      string `json:"prev"`   // absent intact trunc flip ext1 ext32k trashed
 	Layout    string `json:"layout"` // w ww0 ww1 rw
 	Serialize bool   `json:"serialize"`
 }
@@ -124,6 +125,10 @@ func (s c02Scn) prevData(B []byte) []byte {
 		c := append([]byte(nil), B...)
 		c[len(c)/2] ^= 0x10
 		return c
+	case "ext1": // the correct block followed by one trailing byte
+		return append(append([]byte(nil), B...), 0x55)
+	case "ext32k": // ... followed by 32 KiB
+		return append(append([]byte(nil), B...), c02Gen(7, 32*1024)...)
 	}
 	return nil
 }
@@ -622,7 +627,7 @@ func c02Scenarios() []c02Scn {
 	// size is the innermost loop: consecutive scenarios (dealt round-robin to the shards) differ in
 	// size first, so every shard sees every size early even when a time budget cuts the run short
 	for _, layout := range []string{"w", "ww0", "ww1", "rw"} {
-		for _, prev := range []string{"absent", "intact", "trunc", "flip", "trashed"} {
+		for _, prev := range []string{"absent", "intact", "trunc", "flip", "ext1", "ext32k", "trashed"} {
 			if prev == "absent" && layout == "ww1" {
 				continue // same as ww0
 			}
@@ -631,7 +636,7 @@ func c02Scenarios() []c02Scn {
 					continue // quick tier: Serialize=on only on the one-volume layout
 				}
 				for _, size := range sizes {
-					if size == 0 && prev == "flip" {
+					if size == 0 && (prev == "flip" || prev == "ext1") { // ext1 of the empty block is what "trunc" stores for it
 						continue
 					}
 					out = append(out, c02Scn{Size: size, Prev: prev, Layout: layout, Serialize: ser})
